@@ -8,7 +8,7 @@ def rd(n):
 meta = {"property": prop, "needs_to_manifest": needs,
         "confirmed": {"tests_with_change": rd("tests_with_change.txt"), "demo_with_change_tail": rd("demo_with_change.txt"),
                       "demo_without_change_tail": rd("demo_without_change.txt")},
-        "what_i_ran": "in the agent's scratch worktree: cargo test --offline with the change (64 passed, tests::backup fails as at baseline); OUT/demo.sh with the change (non-zero) and after git stash (zero); then git -C /repo apply patch.diff, ./check %s quick, git -C /repo checkout -- ." % prop,
+        "what_i_ran": "in the agent's scratch worktree: cargo test --offline with the change (64 passed, tests::backup fails as at baseline); OUT/demo.sh with the change (non-zero) and after git apply -R (zero); then git -C /repo apply patch.diff, ./check %s quick, git -C /repo checkout -- ." % prop,
         "our_check": {"command": "./check %s quick" % prop, "output": rd("check_output.txt"), "verdict": caught}}
 json.dump(meta, open(os.path.join(d, "meta.json"), "w"), indent=1)
 print("meta written")
